@@ -221,15 +221,17 @@ def drv_numeric(c, ctx, col):
     terms = [lat[i] for i in idx]
     if ctx.get("permute"):
         terms = [tuple(c.perm(list(t))) if len(t) > 1 else t for t in terms]
+    cluster = c.flag() if ctx.get("cluster") else False
+    cb = "numerical_factors" if cluster else "none"
     df = ctx["frame"]
     tl = [Term([Factor("1", eval_method="literal")]) if t == ("1",) else
           Term([Factor(fexpr(f, contrast), eval_method="lookup" if fexpr(f, contrast) == f else "python") for f in t]) for t in terms]
     desc = " + ".join(":".join(fexpr(f, contrast) if f != "1" else "1" for f in t) for t in terms)
-    key = "numeric terms=[%s] (ordering none)" % desc
+    key = "numeric terms=[%s] (ordering none)%s" % (desc, " cluster_by=numerical_factors" if cluster else "")
     fo = Formula(tl, _ordering="none")
     try:
-        R = fo.get_model_matrix(df, output="numpy")
-        F = fo.get_model_matrix(df, output="numpy", ensure_full_rank=False)
+        R = fo.get_model_matrix(df, output="numpy", cluster_by=cb)
+        F = fo.get_model_matrix(df, output="numpy", ensure_full_rank=False, cluster_by=cb)
     except Exception as e:  # noqa
         col.violation(key, {"error": "%s: %s" % (type(e).__name__, e)}, sig="materialization-raised:" + type(e).__name__)
         return
@@ -245,7 +247,7 @@ def drv_numeric(c, ctx, col):
         for st in s.scoped_terms:
             sts.append([(_base(sf.factor.expr), CONFIGS[cfg_name][_base(sf.factor.expr)][1], bool(sf.reduced)) for sf in st.factors])
         emitted.append((tuple(_base(f.expr) for f in s.term.factors), sts))
-    stub = run_stub(cfg_name, terms, False)
+    stub = run_stub(cfg_name, terms, cluster)
     if [sts for _, sts in emitted] != [sts for _, sts in stub]:
         col.violation(key, {"structure_flags": [sts for _, sts in emitted], "stub_flags": [sts for _, sts in stub]}, sig="binding:stub-vs-real-flags")
     v = atom_check(col, key, cfg_name, terms, emitted, extra={"formula": desc})
@@ -299,6 +301,8 @@ def subchecks(tier, seed):
             bounds={"factor_configs": list(CONFIGS), "max_terms": 3 if quick else 4, "universe": "intercept + 15 lattice terms"}),
         Sub("atoms-ordered-factor-orders", drv_ordered, {"configs": ["2cat+2num"] if quick else ["2cat+2num", "3cat+1num"], "N": 2 if quick else 3, "permute": True},
             shard_depth=3, bounds={"max_terms": 2 if quick else 3, "universe": "intercept + 15 lattice terms, every written factor order inside each interaction"}),
+        Sub("numeric-rank-clustered", drv_numeric, {"names": ["A", "B", "a", "b"], "N": 2 if quick else 3, "contrasts": [None], "frame": fr, "cluster": True},
+            shard_depth=3, bounds={"factors": ["A(3)", "B(2)", "a", "b"], "max_terms": 2 if quick else 3, "cluster_by": ["none", "numerical_factors"]}),
         Sub("numeric-rank", drv_numeric, {"names": ["A", "B", "a"], "N": 3 if quick else 4, "contrasts": CONTRASTS[:4] if quick else CONTRASTS, "frame": fr},
             shard_depth=3, bounds={"factors": ["A(3)", "B(2)", "a"], "max_terms": 3 if quick else 4,
                                    "contrasts": [str(x) for x in (CONTRASTS[:4] if quick else CONTRASTS)], "rows": len(fr)}),
